@@ -529,9 +529,12 @@ impl Exec {
                 ));
                 for oi in 0..tx.outputs().len().min(2) {
                     let op = packed::OutPoint::new(tx.hash(), oi as u32);
+                    // liveness is decided by the cell column; the data of a cell that is not live is not
+                    // a chain query (a cached copy may linger: content-addressed, never wrong, unreachable)
+                    let live = store.have_cell(&op);
                     out.push((
                         format!("cell#{b}.{ti}.{oi}"),
-                        store.get_cell_data(&op).map(|(d, hh)| fp_bytes(&[d.to_vec(), hh.as_slice().to_vec()].concat())).unwrap_or(0),
+                        if live { store.get_cell_data(&op).map(|(d, hh)| fp_bytes(&[d.to_vec(), hh.as_slice().to_vec()].concat())).unwrap_or(1) } else { 0 },
                     ));
                 }
             }
@@ -1343,6 +1346,27 @@ impl Exec {
         self.res.probes.add("error_verdicts", n_err as u64);
         if self.w.blocks.iter().any(|b| b.invalid.is_some() && self.delivered_set.contains(&b.idx)) {
             self.res.probes.inc("invalid_block_delivered");
+        }
+        // NervosDAO traffic that made it onto the main chain
+        {
+            let snap = self.node.shared.snapshot();
+            if let Some(ti) = self.w.by_hash.get(&snap.tip_hash()) {
+                let dao_hash = self.w.dao_type_hash.clone();
+                for bi in self.w.st(*ti).chain.iter() {
+                    for tx in self.w.blocks[*bi].view.transactions().iter().skip(1) {
+                        let out_dao = tx.outputs_with_data_iter().find(|(o, _)| o.type_().to_opt().map(|t| t.code_hash() == dao_hash).unwrap_or(false));
+                        match out_dao {
+                            Some((_, d)) if d.len() == 8 && d.iter().all(|b| *b == 0) => self.res.probes.inc("dao_deposit_on_main_chain"),
+                            Some(_) => self.res.probes.inc("dao_withdraw_phase1_on_main_chain"),
+                            None => {
+                                if tx.header_deps().len() == 2 && tx.cell_deps().len() == 2 {
+                                    self.res.probes.inc("dao_withdraw_phase2_on_main_chain");
+                                }
+                            }
+                        }
+                    }
+                }
+            }
         }
         for b in self.w.blocks.iter() {
             if let Some(why) = &b.invalid {
